@@ -4,6 +4,7 @@ mod common;
 mod engines;
 mod sqlgen;
 mod sched;
+mod sqlgen_sub;
 use common::*;
 
 fn main() {
